@@ -175,7 +175,7 @@ func TestCheck(t *testing.T) {
 	})
 	for _, th := range []int{0, 1, 2, 5} {
 		for _, inst := range []install{ioOnly, whole, withMock} {
-			for _, regime := range []string{"infinite", "zero", "finite-gaps"} {
+			for _, regime := range []string{"infinite", "max-duration", "zero", "finite-gaps"} {
 				th, inst, regime := th, inst, regime
 				r.Case(fmt.Sprintf("seq/threshold%d/%s/%s", th, inst, regime), func(c *h.Case) {
 					synctest.Test(t, func(t *testing.T) { seqCase(c, th, inst, regime) })
@@ -275,6 +275,8 @@ func seqCase(c *h.Case, th int, inst install, regime string) {
 	switch regime {
 	case "infinite":
 		recovery = 1000 * time.Hour
+	case "max-duration":
+		recovery = time.Duration(1<<63 - 1)
 	case "zero":
 		recovery = 0
 	default:
